@@ -226,7 +226,8 @@ def stepCall (cfg : Cfg) (s : St) (a : Actor) (c : Call) : Option St :=
 
 /-- hook 23: the one invocation of the pool's `p_push_many` callback, with the whole batch -/
 def stepCbPushMany (cfg : Cfg) (s : St) (a : Actor) (n : Nat) : Option St :=
-  if s.pc a ≠ .pmCb ∨ n ≠ (s.todo a).length then none else some (setPc s a (bodyPc cfg (s.cur a)))
+  if s.pc a ≠ .pmCb ∨ n ≠ (s.todo a).length then none else
+  some (setPc { s with base := upd s.base a s.q } a (bodyPc cfg (s.cur a)))
 
 def resultOf (s : St) (a : Actor) : Res :=
   match s.cur a with
